@@ -13,7 +13,6 @@ STANDINS = r'''
 // ======================= stand-ins (dependency / glue abstractions; NOT glas code) =======================
 #![allow(dead_code, unused_imports, unused_macros, unused_variables)]
 use anyhow::{ensure, Context, Result};
-use slab::Slab;
 use std::sync::Arc;
 use std::{fmt, mem};
 use text_size::{TextRange, TextSize};
@@ -33,6 +32,24 @@ impl<K: PartialEq, V> FxHashMap<K, V> {
         None
     }
     pub fn len(&self) -> usize { self.entries.len() }
+}
+/// stands in for slab::Slab: "a map from small integer keys to values; insert returns a fresh key; indexing an
+/// occupied key yields its value and panics otherwise".  The real crate builds under Kani, but every access through
+/// its Entry enum (or any enum wrapped around the Arc pair) costs CBMC minutes: one splice > 400 s with slab or with
+/// Vec<Option<T>>, 18 s with a plain Vec (measured).  Removal is not modelled (no extracted function removes).
+#[derive(Debug, Clone)]
+pub struct Slab<T> { entries: Vec<T> }
+impl<T> Slab<T> {
+    pub fn new() -> Self { Slab { entries: Vec::new() } }
+    pub fn insert(&mut self, v: T) -> usize { self.entries.push(v); self.entries.len() - 1 }
+    pub fn len(&self) -> usize { self.entries.len() }
+}
+impl<T> std::ops::Index<usize> for Slab<T> {
+    type Output = T;
+    fn index(&self, k: usize) -> &T { &self.entries[k] }
+}
+impl<T> std::ops::IndexMut<usize> for Slab<T> {
+    fn index_mut(&mut self, k: usize) -> &mut T { &mut self.entries[k] }
 }
 /// field-identical to lsp_types::{Position, Range, SemanticToken}
 #[derive(Debug, Clone, Copy, PartialEq, Eq, PartialOrd, Ord)]
@@ -69,7 +86,7 @@ pub struct FileId(pub u32);
 #[derive(Debug, Default)]
 pub struct Change { pub calls: Vec<(FileId, Arc<str>)> }
 impl Change { pub fn change_file(&mut self, file: FileId, text: Arc<str>) { self.calls.push((file, text)); } }
-/// glas::vfs::Vfs reduced to the two fields change_file_content touches (`files` has the real type)
+/// glas::vfs::Vfs reduced to the two fields change_file_content touches
 pub struct Vfs { files: Slab<(Arc<str>, Arc<LineMap>)>, change: Change }
 // ======================= end of stand-ins =======================
 '''
@@ -137,6 +154,7 @@ def extract(repo):
     return {'text': text, 'functions': under, 'dropped': dropped,
             'standins': ['FxHashMap -> association list (assumed contract: a hash map is a finite map)',
                          'Vfs reduced to {files: Slab<(Arc<str>, Arc<LineMap>)>, change}; ide::Change::change_file -> recording push',
+                         'slab::Slab -> Vec<T> with insert / Index / IndexMut (assumed contract: a map from small integer keys to values)',
                          'lsp_types Position / Range / SemanticToken / SemanticTokenType -> field-identical plain structs',
                          'ide::FileId -> tuple struct']}
 
@@ -148,7 +166,6 @@ edition = "2021"
 
 [dependencies]
 anyhow = "=%(anyhow)s"
-slab = "=%(slab)s"
 text-size = "=%(text_size)s"
 
 [workspace]
@@ -167,7 +184,7 @@ def write_crate(repo, dest, harness_text):
     os.makedirs(os.path.join(dest, 'src'), exist_ok=True)
     lock = open(os.path.join(repo, 'Cargo.lock')).read()
     open(os.path.join(dest, 'Cargo.toml'), 'w').write(CARGO_TOML % {
-        'anyhow': lock_version(lock, 'anyhow'), 'slab': lock_version(lock, 'slab'), 'text_size': lock_version(lock, 'text-size')})
+        'anyhow': lock_version(lock, 'anyhow'), 'text_size': lock_version(lock, 'text-size')})
     main = ex['text'] + '\n#[cfg(kani)]\n#[allow(unused, non_snake_case)]\nmod verif_kani {\nuse super::*;\n' + harness_text + '\n}\nfn main() {}\n'
     open(os.path.join(dest, 'src/main.rs'), 'w').write(main)
     return ex
